@@ -51,15 +51,21 @@ let observe (s : info) (res : string) tables tokens dcs : string =
         Buffer.add_string b (if tt.tt_flag then "~1[" else "~0[");
         Buffer.add_string b (String.concat ";" (List.map tablet_s tt.tt_list));
         Buffer.add_char b ']';
+        let seen = ref [] in
         List.iter (fun tok ->
             let tok = token_new tok in
-            match tablet_for_token tt.tt_list tok, replicas_for_token tt.tt_list tok with
-            | None, None -> Buffer.add_string b "@n"
-            | Some t, Some all ->
-              Buffer.add_string b (Printf.sprintf "@%s:%s:%s:" (hex_of_z t.t_first) (hex_of_z t.t_last) (reps_s all));
-              Buffer.add_string b (String.concat "/" (List.map (fun d ->
-                  match dc_replicas_for_token tt.tt_list tok d with Some l -> reps_s l | None -> "?") dcs))
-            | _ -> Buffer.add_string b "@inconsistent") tokens) tables;
+            let lk = match tablet_for_token tt.tt_list tok, replicas_for_token tt.tt_list tok with
+              | None, None -> "n"
+              | Some t, Some all ->
+                Printf.sprintf "%s:%s:%s:%s" (hex_of_z t.t_first) (hex_of_z t.t_last) (reps_s all)
+                  (String.concat "/" (List.map (fun d ->
+                       match dc_replicas_for_token tt.tt_list tok d with Some l -> reps_s l | None -> "?") dcs))
+              | _ -> "inconsistent" in
+            let rec pos i = function [] -> None | x :: r -> if x = lk then Some i else pos (i + 1) r in
+            (match pos 0 (List.rev !seen) with
+             | Some i when lk <> "n" -> Buffer.add_string b (Printf.sprintf "@=%x" i)
+             | _ -> Buffer.add_char b '@'; Buffer.add_string b lk);
+            seen := lk :: !seen) tokens) tables;
   Buffer.contents b
 
 let model_res (s : info) (o : op) : string =
@@ -82,6 +88,12 @@ let parse_table (s : string) =
     let tablets = String.sub s (lb + 1) (rb - lb - 1) in
     let rest = String.sub s (rb + 1) (String.length s - rb - 1) in
     let lks = match String.split_on_char '@' rest with _ :: l -> l | [] -> [] in
+    let arr = Array.of_list lks in
+    let lks = List.map (fun lk ->
+        if String.length lk > 1 && lk.[0] = '=' then
+          (let i = int_of_string ("0x" ^ String.sub lk 1 (String.length lk - 1)) in
+           if i < Array.length arr then arr.(i) else lk)
+        else lk) lks in
     let ranges = List.map (fun t -> match String.split_on_char ':' t with
         | f :: l :: _ -> (z_of_hex f, z_of_hex l) | _ -> failwith "tablet")
         (if tablets = "" then [] else String.split_on_char ';' tablets) in
@@ -127,7 +139,7 @@ let property_fails (hist : op list) tables tokens dcs (obs : string) : string op
 
 let verdict case impl =
   match case with
-  | "H" :: tables :: tokens :: dcs :: ops ->
+  | kind :: tables :: tokens :: dcs :: ops when String.length kind >= 1 && kind.[0] = 'H' ->
     let tables = List.map p_tkey (split ',' tables) in
     let tokens = List.map z_of_hex (split ',' tokens) in
     let dcs = List.map n_of_hex (split ',' dcs) in
